@@ -12,7 +12,9 @@ open AgpTpf
 theorem source_span_figures (bs be s e : Int) :
     Gen.K.OverlapResult_length (self_start := s) (self_end := e) = e - s + 1 ∧
     Gen.K.OverlapResult_start_overhang (self_bait_start := bs) (self_start := s) = bs - s ∧
-    Gen.K.OverlapResult_end_overhang (self_bait_end := be) (self_end := e) = e - be := ⟨rfl, rfl, rfl⟩
+    Gen.K.OverlapResult_end_overhang (self_bait_end := be) (self_end := e) = e - be := by
+  unfold Gen.K.OverlapResult_length Gen.K.OverlapResult_start_overhang Gen.K.OverlapResult_end_overhang
+  refine ⟨by omega, by omega, by omega⟩
 
 /-- the source's `start_row_bait_overlap` = size of `[bait.start, bait.end] ∩ [start, start + len(first row) − 1]`
     (0 when they do not meet) -/
